@@ -28,12 +28,16 @@ Definition cw_state := list cmodel.
 (* the work profiles of the world: profile id -> execution strategies (in order) *)
 Definition world := list (Z * list strategy).
 (* a worker as the scheduler sees it: available resource vector (in the order of the
-   Resources dict), and is_available(profile) for the profiles it knows (0 = loaded) *)
-Record worker := mkW { w_id : Z; w_res : resvec; w_loaded : list (Z * Z) }.
+   Resources dict), is_available(profile) for the profiles it knows (0 = loaded), and the ids of the tasks
+   placed on it (Worker._placed_tasks, copied by Worker.__copy__) *)
+Record worker := mkW { w_id : Z; w_res : resvec; w_loaded : list (Z * Z); w_placed : list Z }.
 Record pool := mkP { p_id : Z; p_workers : list worker }.
 
 Definition zlen {A} (l : list A) : Z := Z.of_nat (length l).
 Definition nonempty {A} (l : list A) : bool := match l with [] => false | _ => true end.
+
+Fixpoint zmem (x : Z) (l : list Z) : bool := match l with [] => false | y :: l' => (x =? y) || zmem x l' end.
+Fixpoint znodup (l : list Z) : bool := match l with [] => true | x :: l' => negb (zmem x l') && znodup l' end.
 
 Fixpoint zassoc {B} (k : Z) (l : list (Z * B)) : option B :=
   match l with [] => None | (k', v) :: l' => if k' =? k then Some v else zassoc k l' end.
@@ -77,7 +81,7 @@ Fixpoint alloc_loop (v : resvec) (n i rem : Z) : resvec :=
       else if rem =? 0 then (n', i', q) :: v' else (n', i', q) :: alloc_loop v' n i rem
   end.
 Definition res_allocate (v : resvec) (e : Z * Z * Z) : result resvec :=
-  let '(n, i, q) := e in if res_avail v n i <? q then Err 2 else Ok (alloc_loop v n i q).
+  let '(n, i, q) := e in if q <? 0 then Err 2 else if res_avail v n i <? q then Err 2 else Ok (alloc_loop v n i q).
 Fixpoint res_allocate_seq (req : resvec) (v : resvec) : result resvec :=
   match req with
   | [] => Ok v
@@ -92,12 +96,14 @@ Definition w_is_available (w : worker) (mid : Z) : Z :=
   match zassoc mid (w_loaded w) with Some r => r | None => -1 end.
 (* Worker.can_accomodate_strategy for an ExecutionStrategy of a profile *)
 Definition fits (w : worker) (s : strategy) : bool := res_gt (w_res w) (s_res s).
-(* Worker.place_task for the FIRST task of a fresh BatchStrategy (the others of the batch only join) *)
-Definition w_place (w : worker) (s : strategy) : result worker :=
+(* Worker.place_task for every member of a batch under a fresh BatchStrategy: a member that is already placed on the
+   worker is refused (ValueError), the first member allocates the resources, the others only join *)
+Definition w_place (w : worker) (s : strategy) (ts : list (Z)) : result worker :=
   if s_bs s <? 1 then Err 2 else
+  if existsb (fun i => zmem i (w_placed w)) ts || negb (znodup ts) then Err 2 else
   match res_allocate_multiple (w_res w) (s_res s) with
   | Err c => Err c
-  | Ok v => Ok (mkW (w_id w) v (w_loaded w))
+  | Ok v => Ok (mkW (w_id w) v (w_loaded w) (w_placed w ++ ts))
   end.
 
 (* ---------------------------------------------------------------- Model: queues and task map *)
@@ -304,7 +310,7 @@ Fixpoint infer_loop (fuel : nat) (least_slack : bool) (now pid : Z) (w : worker)
                     match m_get_placements s m with
                     | Err c => Err c
                     | Ok (ts, m1) =>
-                        match (if nonempty ts then w_place w s else Ok w) with
+                        match (if nonempty ts then w_place w s (map t_id ts) else Ok w) with
                         | Err c => Err c
                         | Ok w1 =>
                             match avail_strats now m1 with
@@ -426,8 +432,6 @@ Definition hopeless (wd : world) (now : Z) (t : task) : bool :=
   | Some ss => match fastest_rt ss with Some f => t_deadline t <? now + f | None => false end
   | None => false
   end.
-Fixpoint zmem (x : Z) (l : list Z) : bool := match l with [] => false | y :: l' => (x =? y) || zmem x l' end.
-Fixpoint znodup (l : list Z) : bool := match l with [] => true | x :: l' => negb (zmem x l') && znodup l' end.
 Fixpoint zlist_eqb (a b : list Z) : bool :=
   match a, b with [] , [] => true | x :: a', y :: b' => (x =? y) && zlist_eqb a' b' | _, _ => false end.
 Fixpoint find_strategy (sid : Z) (ss : list strategy) : option strategy :=
@@ -479,7 +483,7 @@ Fixpoint mon_batches (wd : world) (now : Z) (ps : list pool) (bs : list obatch) 
           mon_batch wd now w b &&
           match zassoc (match ob_tasks b with t0 :: _ => t_model t0 | [] => 0 end) wd with
           | Some ss => match find_strategy (ob_sid b) ss with
-                       | Some s => match w_place w s with
+                       | Some s => match w_place w s (map t_id (ob_tasks b)) with
                                    | Ok w1 => mon_batches wd now (set_worker (ob_pool b) w1 ps) bs'
                                    | Err _ => false
                                    end
